@@ -8,6 +8,7 @@ import (
 	"bytes"
 	"fmt"
 	"go/types"
+	"math"
 
 	"gosmt/smt"
 
@@ -82,7 +83,7 @@ func kindBits(k types.BasicKind) int {
 		return 16
 	case types.Int32, types.Uint32:
 		return 32
-	case types.Int, types.Int64, types.Uint, types.Uint64, types.Uintptr:
+	case types.Int, types.Int64, types.Uint, types.Uint64, types.Uintptr, types.Float64:
 		return 64
 	}
 	panic(fmt.Sprintf("kindBits: %v", k))
@@ -190,6 +191,8 @@ func fromBits(k types.BasicKind, b uint64) value {
 		return b
 	case types.Uintptr:
 		return uintptr(b)
+	case types.Float64:
+		return math.Float64frombits(b)
 	}
 	panic(fmt.Sprintf("fromBits: %v", k))
 }
@@ -201,6 +204,8 @@ func (in *interp) term(x value) *smt.Term {
 		return x.T
 	case bool:
 		return in.ctx.Bool(x)
+	case float64:
+		return in.ctx.Const(64, math.Float64bits(x))
 	}
 	k := kindOf(x)
 	if k == types.Invalid {
@@ -377,9 +382,15 @@ func (in *interp) equals(t types.Type, x, y value) value {
 		return false // a plain byte never equals an encoded object
 	}
 	if sx, ok := x.(*Sym); ok {
+		if sx.K == types.Float64 {
+			return mkval(in.ctx.FP("fp.eq", sx.T, in.term(y)), types.Bool)
+		}
 		return mkval(in.ctx.Eq(sx.T, in.term(y)), types.Bool)
 	}
 	if sy, ok := y.(*Sym); ok {
+		if sy.K == types.Float64 {
+			return mkval(in.ctx.FP("fp.eq", in.term(x), sy.T), types.Bool)
+		}
 		return mkval(in.ctx.Eq(in.term(x), sy.T), types.Bool)
 	}
 	switch x := x.(type) {
